@@ -127,6 +127,8 @@ func runC13(c *engine.Ctx) {
 	r3 := c.Rule("R3", "every decrease is clamped (counter >= amount, else zero); the global counter is reduced by the clamped amount", 2)
 	r4 := c.Rule("R4", "peer release subtracts the peer's total from the global total and removes the peer from map and heap", 1)
 	r5 := c.Rule("R5", "every access to allocator state holds allocLk", 8)
+	r7 := c.Rule("R7", "the pending total reported by Stats is the sum over the pending lists, or a counter updated wherever pending allocations are added or dropped", 1)
+	c13PendingTotal(c, r7)
 	a := loadAlloc(c, r1)
 	if a == nil {
 		return
@@ -359,4 +361,125 @@ func sameAmount(x, y ssa.Value, a *allocFacts) bool {
 		}
 	}
 	return false
+}
+
+// c13PendingTotal (R7): "once everything is released nothing is reported ... pending".  The reported pending total
+// must either be summed from the per-peer pending lists when asked for, or come from a counter that every function
+// adding or dropping pending allocations keeps up to date (dropping a peer with allocations still waiting included).
+func c13PendingTotal(c *engine.Ctx, rule string) {
+	a := loadAlloc(c, rule)
+	if a == nil {
+		return
+	}
+	statF := c.P.Field("", "ResponseStats", "TotalPendingAllocations")
+	amountF := c.P.Field("allocator", "pendingAllocation", "amount")
+	if statF == nil || amountF == nil {
+		c.AnchorMissing(rule, "graphsync.ResponseStats.TotalPendingAllocations / allocator.pendingAllocation.amount")
+		return
+	}
+	n := 0
+	for _, f := range a.fns {
+		for _, st := range engine.StoresTo([]*ssa.Function{f}, statF) {
+			n++
+			key := engine.FuncName(f) + "|pending-total"
+			// leaves of the reported value
+			var counters []*types.Var
+			fromLists, other := false, ""
+			seen := map[ssa.Value]bool{}
+			var walk func(v ssa.Value)
+			walk = func(v ssa.Value) {
+				v = engine.LocalValue(v)
+				if seen[v] {
+					return
+				}
+				seen[v] = true
+				switch x := v.(type) {
+				case *ssa.Phi:
+					for _, e := range x.Edges {
+						walk(e)
+					}
+					return
+				case *ssa.BinOp:
+					if x.Op == token.ADD {
+						walk(x.X)
+						walk(x.Y)
+						return
+					}
+				case *ssa.Convert:
+					walk(x.X)
+					return
+				case *ssa.Const:
+					return
+				}
+				if fl, _ := engine.LoadedField(v); fl != nil {
+					if fl == amountF {
+						fromLists = true
+						return
+					}
+					if _, isInt := fl.Type().Underlying().(*types.Basic); isInt {
+						counters = append(counters, fl)
+						return
+					}
+				}
+				other = v.String()
+			}
+			walk(st.Val)
+			if other != "" {
+				c.Undecided(rule, key, st.Pos(), "cannot trace the reported pending total to the pending lists or to a counter field: "+other)
+				continue
+			}
+			if len(counters) == 0 {
+				c.Decide(rule, key, st.Pos(), fromLists, "the pending total is summed from the per-peer pending lists", "the reported pending total is not derived from the pending lists")
+				continue
+			}
+			// a separately maintained counter: every function that changes a pending list or drops a peer that may
+			// still have allocations waiting must update it
+			bad := ""
+			for _, ctr := range counters {
+				for _, g := range a.fns {
+					if len(engine.StoresTo([]*ssa.Function{g}, ctr)) > 0 {
+						continue
+					}
+					touches := ""
+					if len(engine.StoresTo([]*ssa.Function{g}, a.pending)) > 0 {
+						for _, ps := range engine.StoresTo([]*ssa.Function{g}, a.pending) {
+							if _, isAlloc := ps.Addr.(*ssa.FieldAddr).X.(*ssa.Alloc); !isAlloc {
+								touches = "changes a pending list"
+							}
+						}
+					}
+					for _, del := range engine.MapDeletesOfField([]*ssa.Function{g}, a.statuses) {
+						empty := false
+						for _, cd := range engine.InstrConds(del) {
+							bo, ok := cd.V.(*ssa.BinOp)
+							if !ok {
+								continue
+							}
+							lc, ok := bo.X.(*ssa.Call)
+							if !ok {
+								continue
+							}
+							if lb, ok := lc.Call.Value.(*ssa.Builtin); !ok || lb.Name() != "len" || !isLoadOfField(lc.Call.Args[0], a.pending) {
+								continue
+							}
+							k, _ := engine.ConstInt(bo.Y)
+							if k == 0 && ((bo.Op == token.GTR && !cd.Pol) || (bo.Op == token.EQL && cd.Pol) || (bo.Op == token.NEQ && !cd.Pol) || (bo.Op == token.LEQ && cd.Pol)) {
+								empty = true // only peers with nothing waiting are dropped here
+							}
+						}
+						if !empty {
+							touches = "drops a peer that may still have allocations waiting"
+						}
+					}
+					if touches != "" {
+						bad = fmt.Sprintf("%s %s but does not update the counter %s that Stats reports as the pending total: the total over-reports from then on and is non-zero after everything has been released", engine.FuncName(g), touches, ctr.Name())
+					}
+				}
+			}
+			c.Decide(rule, key, st.Pos(), bad == "", "the pending counter is updated by every function that adds or drops pending allocations", bad)
+		}
+	}
+	if n == 0 {
+		c.AnchorMissing(rule, "a store to ResponseStats.TotalPendingAllocations in allocator")
+	}
 }
